@@ -300,7 +300,13 @@ var errStoreUnloadable = truststore.TrustStoreError{Msg: "store cannot be loaded
 var kitNowSecs []int64
 var kitNowCalls int
 
+// kitNowFixed, when set, is the clock's reading for every call (a harness moves it between phases)
+var kitNowFixed int64
+
 func kitNow() time.Time {
+	if kitNowFixed != 0 {
+		return time.Unix(kitNowFixed, 0)
+	}
 	i := kitNowCalls
 	kitNowCalls++
 	if i < len(kitNowSecs) {
